@@ -138,14 +138,21 @@ static std::map<std::string, Fn> timerMethods(TimerResults &tr)
     return m;
 }
 
+// both threads keep calling until each has made at least n calls (bounded by 6n): the two loops overlap in time, which
+// is what the detector needs (a reader that finishes before the writer's first store is not reported reliably)
 static void runPair(const Fn &a, const Fn &b, int n)
 {
     std::atomic<int> ready{0};
+    std::atomic<int> finished{0};
+    const int cap = 6 * n;
     auto body = [&](const Fn &f) {
         ++ready;
         while (ready < 2) {}
-        for (int i = 0; i < n; ++i)
+        for (int i = 0; i < cap && (i < n || finished < 2); ++i) {
             f(i);
+            if (i + 1 == n)
+                ++finished;
+        }
     };
     std::thread ta(body, std::cref(a));
     std::thread tb(body, std::cref(b));
